@@ -111,13 +111,10 @@ theorem rejected_put_answered_at_once (a : Actor) (env : Env) (c : Nat) (spec : 
     (e : PutErr) (h : (checkConcurrency a.core spec).2 = some e) :
     (a.pickup env (some (.put c spec extra))).events = a.events ++ [.putResult c (.error e)] ∧
     (a.pickup env (some (.put c spec extra))).putSenders = a.putSenders := by
-  simp only [pickup, Actor.put]
-  cases hc : checkConcurrency a.core spec with
-  | mk core err =>
-    rw [hc] at h
-    simp only at h
-    subst h
-    simp
+  have hp : a.put spec extra env.now = ({ a with core := (checkConcurrency a.core spec).1 }, .error e) := by
+    unfold Actor.put; rw [h]
+  simp only [pickup, pickupPut, hp]
+  trivial
 
 /-! ### 301 / 302 from a majority of the contacted nodes -/
 
